@@ -542,6 +542,101 @@ pub fn c13() -> Property {
     }
 }
 
+/// A reply reaches the station in two pieces with a pause in between (a receive path that hands the
+/// bytes over in bursts): the request must still get exactly one outcome.
+/// `i`: cut position (i % 8 -> after 1..8 bytes), pause (i / 8 % 4 -> 40, 100, 180, 250 bit times; the
+/// slot time is 300), which requests are answered that way (i / 32: every one / every third).
+fn chunked_reply_case(i: u64, obs: &mut Obs) -> CaseResult {
+    use crate::envsim::{World, ENV};
+    const TS: u8 = 3;
+    const SLOT: i64 = 300;
+    let cut = 1 + (i % 8) as usize;
+    let pause = [40i64, 100, 180, 250][((i / 8) % 4) as usize];
+    let every = if i / 32 == 0 { 1 } else { 3 };
+    let log: Log = Rc::new(RefCell::new(vec![]));
+    let spec = AppSpec { burst: u32::MAX, targets: vec![9], kind: ReqKind::SrdLow, pdu_len: 2 };
+    let mut app = TrafficApp::new(0, 0, TS, spec, log.clone());
+    let mut w = World::new(TS, 6, profirust::Baudrate::B1500000, SLOT as u16, 100, Some(200_000));
+    let mut seen = 0usize;
+    let mut requests = 0u64;
+    let mut pending: Vec<(i64, Vec<u8>)> = vec![];
+    let t_end = 6000 * w.bit_us(SLOT);
+    while w.now < t_end && requests < 40 {
+        w.run(5, &mut app);
+        let now = w.now;
+        pending.retain(|(t, d)| {
+            if *t <= now {
+                w.bus.inject(ENV, *t, d);
+                false
+            } else {
+                true
+            }
+        });
+        let recs = w.sent_since(seen);
+        seen = w.trace_len();
+        for r in recs {
+            if r.sender != 0 {
+                continue;
+            }
+            if let Some(RefFrame::Data { dsap: Some(40), da, .. }) = rc::decode_one(&r.bytes) {
+                requests += 1;
+                let end = (r.end_ns + 999) / 1000;
+                let reply = rc::encode(&RefFrame::Data { da: TS, sa: da, dsap: Some(41), ssap: Some(40), fc: 0x08, pdu: vec![requests as u8, 0x5A] });
+                if requests % every == 0 {
+                    let k = cut.min(reply.len() - 1);
+                    let t1 = end + w.bit_us(30);
+                    let t2 = t1 + w.bit_us(11 * k as i64 + pause);
+                    pending.push((t1, reply[..k].to_vec()));
+                    pending.push((t2, reply[k..].to_vec()));
+                } else {
+                    pending.push((end + w.bit_us(30), reply));
+                }
+            }
+        }
+    }
+    // every request has exactly one outcome, delivered before the next request goes out
+    let log = log.borrow();
+    let mut outstanding: Option<i64> = None;
+    let mut outcomes = 0u32;
+    let mut req_no = 0u64;
+    let (mut replies, mut timeouts) = (0u64, 0u64);
+    for c in log.iter() {
+        match c {
+            Cb::Tx { t, sent: Some(_), .. } => {
+                if let Some(ot) = outstanding {
+                    ensure!(outcomes == 1, "outcomes-per-request", "the request sent at {} us got {} outcomes (reply / time-out) before the next request at {} us; its reply arrived in two pieces {} bit times apart (slot time {})", ot, outcomes, t, pause, SLOT);
+                }
+                outstanding = Some(*t);
+                outcomes = 0;
+                req_no += 1;
+            }
+            Cb::Reply { t, .. } | Cb::Timeout { t, .. } => {
+                ensure!(outstanding.is_some(), "outcome-without-request", "reply / time-out at {} us without an outstanding request", t);
+                outcomes += 1;
+                ensure!(outcomes <= 1, "double-resolution", "second outcome at {} us for the request sent at {:?} us (reply in two pieces {} bit times apart, slot time {})", t, outstanding, pause, SLOT);
+                if let Cb::Reply { frame, .. } = c {
+                    replies += 1;
+                    // the peer echoes the number of the request it answers
+                    let echoed = match frame {
+                        RefFrame::Data { pdu, .. } => pdu.first().copied(),
+                        _ => None,
+                    };
+                    ensure!(echoed == Some(req_no as u8), "reply-to-another-request", "the reply delivered at {} us for request no. {} answers request no. {:?} (replies arrive in two pieces {} bit times apart, slot time {})", t, req_no, echoed, pause, SLOT);
+                } else {
+                    timeouts += 1;
+                }
+            }
+            _ => {}
+        }
+    }
+    ensure!(requests >= 10, "harness", "only {} requests were sent", requests);
+    obs.count("replies", replies);
+    obs.count("timeouts", timeouts);
+    obs.nontrivial(i);
+    obs.sample(|| json!({"cut_after_bytes": cut, "pause_bits": pause, "every": every, "requests": requests, "replies": replies}));
+    Ok(())
+}
+
 pub fn c15() -> Property {
     Property {
         id: "C15",
@@ -553,10 +648,11 @@ pub fn c15() -> Property {
         subchecks: vec![
             SubCheck::tape("callbacks", "rings with instrumented applications and misbehaving peers, window 1500 slot times", |t, obs| traffic_case(t, obs, Mode::C15, 1500)),
             SubCheck::tape("callbacks_long", "window of 20000 slot times", |t, obs| traffic_case(t, obs, Mode::C15, 20_000)),
+            SubCheck::index("chunked_reply", "the reply reaches the station in two pieces with a pause of 40..250 bit times (constructed, 64 scenarios): exactly one outcome per request, and a delivered reply answers that very request", chunked_reply_case),
         ],
         plan: |tier| match tier {
-            Tier::Quick => vec![Step::Pbt { kind: "callbacks", cases: 1200, max_len: 120 }],
-            Tier::Thorough => vec![Step::Pbt { kind: "callbacks", cases: 10_000, max_len: 120 }, Step::Pbt { kind: "callbacks_long", cases: 400, max_len: 120 }],
+            Tier::Quick => vec![Step::Enumerate { kind: "chunked_reply", count: 64 }, Step::Pbt { kind: "callbacks", cases: 1200, max_len: 120 }],
+            Tier::Thorough => vec![Step::Enumerate { kind: "chunked_reply", count: 64 }, Step::Pbt { kind: "callbacks", cases: 10_000, max_len: 120 }, Step::Pbt { kind: "callbacks_long", cases: 400, max_len: 120 }],
         },
         hang_is_violation: false,
         hang_limit_s: 900,
